@@ -408,6 +408,16 @@ def cases_for(kind, n, C, cls, r, seeds, big=False):
                 c = thr_case(r, n, C, cls, rows, r.choice([0.25, 0.5, 1.0]))
                 if c:
                     out.append(c)
+                if C in (2, 4):
+                    # rows sitting EXACTLY on the threshold: equal logits give confidence 1/C (exact in float32);
+                    # whatever the wrapper decides there, bulk and per-sample accessors must decide the same
+                    tie = [list(row) for row in rows]
+                    for j in range(0, n, 2):
+                        tie[j] = [3] * C
+                    import torch
+                    conf = [clamp(round(float(p_) * SCALE)) for p_ in
+                            torch.tensor(tie, dtype=torch.float32).softmax(dim=1).max(dim=1).values.tolist()]
+                    out.append(mk("pl", "thr", n, C, cls, rows=tie, rs=1.0, conf=conf, thr=SCALE // C))
             else:
                 for k in pick(range(1, C + 1)):
                     for tau in pick(["none", "inf", 0.5, 2.0]):
